@@ -300,6 +300,38 @@ def run(ctx):
             ctx.case(None, key=("build_tool", repr(words), stdin_text))
             if valid != (res == "ok") or (not valid and connects):
                 ctx.violate("connect-despite-error", {"input": {"words": words, "stdin": stdin_text}, "observed": "build_tool -> %s, connection attempts: %d, script valid: %s" % (res, len(connects), valid)})
+        # the real command line: whatever follows the options is the script, word for word - also words that begin with '-'
+        # (negative coordinates, a typed text that looks like an option, a trailing "-w 4")
+        argv_cases = [["move", "-5", "10"], ["type", "-p", "key", "a"], ["key", "a", "-w", "4"], ["type", "--nocursor"], ["key", "-"],
+                      ["pause", "-1"], ["drag", "-3", "-4"], ["type", "-"], ["key", "a", "--", "key", "b"]]
+        for _ in range(ctx.n(20, 200)):
+            ws = []
+            for _k in range(ctx.rng.randint(1, 4)):
+                ws += ctx.rng.choice([["key", ctx.rng.choice(["a", "-", "ctrl-c"])], ["type", ctx.rng.choice(["-v", "--delay", "x", "-i"])],
+                                      ["move", str(ctx.rng.randint(-9, 9)), str(ctx.rng.randint(-9, 9))], ["pause", ctx.rng.choice(["-1", "0.5"])]])
+            argv_cases.append(ws)
+        for words in argv_cases:
+            seen = []
+
+            def fake_build_tool(options, args, seen=seen):
+                seen.append(list(args))
+                raise SystemExit(0)
+            with mock.patch.object(cmd, "build_tool", fake_build_tool), mock.patch.object(cmd, "setup_logging", lambda o: None), \
+                    mock.patch.object(cmd, "reactor", mock.Mock()), mock.patch.object(sys, "argv", ["vncdo", "-s", "h"] + list(words)), \
+                    mock.patch.object(sys, "stderr", io.StringIO()):
+                try:
+                    cmd.vncdo()
+                    res = "returned"
+                except SystemExit as e:
+                    res = "exit %r" % (e.code,)
+                except Exception as e:  # noqa
+                    res = "raise " + exc_class(e)
+            ctx.count("argv_cases")
+            ctx.case(None, key=("argv", repr(words)))
+            if seen != [list(words)]:
+                ctx.violate("argv-not-the-script", {"input": {"command_line": ["vncdo", "-s", "h"] + list(words)},
+                                                    "observed": "the script handed to build_tool is %r (%s); written: %r" % (seen, res, list(words)),
+                                                    "how": "the real vncdo() option parser with build_tool replaced by a recorder"})
     finally:
         os.chdir(cwd)
         shutil.rmtree(tmp, ignore_errors=True)
